@@ -47,7 +47,18 @@ def check_adapter(ctx, rule: str, adapter: str, inner: str, prop: str, creator: 
         st = stmt_of(c)
         ctx.require_at(rule, pf, st, [[f"self.{inner} is None"]], instance=f"{adapter}: the backend object is created only once", what="materialisation")
         rets = [r for r in own_walk(pf.node) if isinstance(r, ast.Return)]
-        okr = bool(rets) and all(r.value is not None and ast.unparse(r.value) == f"self.{inner}" for r in rets)
+        def _is_inner_value(r):
+            if r.value is None:
+                return False
+            if ast.unparse(r.value) == f"self.{inner}":
+                return True
+            # a local that is, on every path to this return, a snapshot of the field (`x = self._inner ... return x`)
+            if isinstance(r.value, ast.Name):
+                fa = ctx.facts_at(pf, r)
+                return bool(fa) and all((f"__same__({r.value.id}, self.{inner})", True) in x for x in fa)
+            return False
+
+        okr = bool(rets) and all(_is_inner_value(r) for r in rets)
         ctx.ob(rule, pf, f"{adapter}.{prop} returns the materialised object", okr, detail="" if okr else f"{adapter}.{prop} does not `return self.{inner}`", by=(f"return self.{inner}",))
     init = ms.get("__init__")
     if init is not None:
